@@ -3,6 +3,7 @@ package main
 func init() { register("C12", runC12) }
 
 func runC12(cfg *runCfg) error {
+	c12bCfg = cfg // the base-client retry-handle family (c12_base.go) is run through the rsExtra hook
 	n := 350
 	depth := 1
 	if cfg.tier == "thorough" {
@@ -26,7 +27,7 @@ func runC12(cfg *runCfg) error {
 		{"enum", enum},
 		{"random", rsRandomFamily(cfg.seed, n, [5]int{2, 4, 4, 1, 0}, false, false)},
 	}
-	rule := "publish workloads x every placement of closing faults on every packet; random scenarios of 1-4 connections, identifiers chosen by the library and by the caller; judged on all PUBLISH/PUBREL packets of each message across connections: same identifier/topic/payload/QoS/retain, DUP=0 first then 1, QoS0 never retransmitted, no PUBLISH after a PUBREL was handed to the transport; non-trivial = distinct scenario in which some message was transmitted at least twice"
+	rule := "publish workloads x every placement of closing faults on every packet; random scenarios of 1-4 connections, identifiers chosen by the library and by the caller; judged on all PUBLISH/PUBREL packets of each message across connections: same identifier/topic/payload/QoS/retain, DUP=0 first then 1, QoS0 never retransmitted, no PUBLISH after a PUBREL was handed to the transport; non-trivial = distinct scenario in which some message was transmitted at least twice. Family handle (real BaseClients, no RetryClient): Publish QoS1/QoS2 interrupted at every point (PUBLISH write fails / closed / ctx done while waiting, the same at the PUBREL step), the ErrorWithRetry retried on a fresh client, the same client or a never-connected one, with no other request or with other requests blocked un-acknowledged under the SAME packet identifier (Publish waiting PUBACK / PUBREC / PUBCOMP, Subscribe, Unsubscribe; identifier given by the caller or drawn by the library), each second attempt under every environment, plus random chains of 3-4 attempts; identifiers caller-provided, library-chosen, at the 16-bit wrap; judged on every PUBLISH/PUBREL written during each call and on Message.ID after it"
 	return rsRunProperty(cfg, "C12", "c12_ok", fams, rule, func(sc *rsScenario, o *rsObs) bool {
 		cnt := map[string]int{}
 		for _, w := range o.Wire {
